@@ -82,7 +82,7 @@ theorem admitStep_spec {td : Nat → St → R} {B : List Nat} (dep : Bool) {c : 
         rw [hx.mgrs]; simp [St.frameIn, hfc, hi]
       have hI3 : Inv B (s2.log (.yielded dep c o)) := hI2.logYielded dep hi2 hcB
       refine ⟨hI3, ?_, ?_⟩
-      · refine ⟨⟨?_, ?_, ?_⟩, ?_⟩
+      · refine ⟨⟨?_, ?_, ?_, ?_⟩, ?_⟩
         · show s.nFrame ≤ s2.nFrame
           rw [hx.nFrame]; exact hS1.tr.nFrame_le
         · intro f hf hn
@@ -91,6 +91,8 @@ theorem admitStep_spec {td : Nat → St → R} {B : List Nat} (dep : Bool) {c : 
         · intro k f hf
           apply hS1.tr.newHeld k f
           rw [← hx.mgrs]; exact hf
+        · show s.nObj ≤ s2.nObj
+          rw [hx.nObj]; exact hS1.tr.nObj_le
         · intro b hbm
           show s2.mgrs b = s.mgrs b
           rw [hx.mgrs]; exact hS1.keep b hbm
@@ -148,7 +150,7 @@ theorem ops_spec (hwf : cfg.depsBelow) :
     refine ⟨?_, ?_, ?_⟩
     · intro B c s h _; exact ⟨h, Step.refl B s⟩
     · intro B f s e h _ _ _
-      exact ⟨h, ⟨⟨Nat.le_refl _, fun g hg hn => absurd hg hn, fun k g hg => Or.inl hg⟩, fun _ _ => rfl⟩⟩
+      exact ⟨h, ⟨⟨Nat.le_refl _, fun g hg hn => absurd hg hn, fun k g hg => Or.inl hg, Nat.le_refl _⟩, fun _ _ => rfl⟩⟩
     · intro B dep c reset excl roe s h _
       exact ⟨h, Step.refl B s, by simp [ops]⟩
   | succ k ih =>
